@@ -214,6 +214,45 @@ pub fn gen_wrapped(src: &mut Src, _i: usize) -> Case {
     case
 }
 
+/// long sessions: hundreds of chunks, thousands of lines, limits up to 1024
+pub fn gen_long_session(src: &mut Src, _i: usize) -> Case {
+    let (cols, rows) = if src.chance(1, 3) { (80, 24) } else { gen::small_size(src) };
+    let limit = *src.pick(&[0usize, 9, 10, 100, 255, 256, 1000, 1024]);
+    let g = G::new(cols, rows).no_ris();
+    let mut case = Case::new(cols, rows, Some(limit));
+    let n = src.range(100, 400);
+    let mut tr = ScreenTracker::new();
+    for k in 0..n {
+        let mut s = String::new();
+        match src.below(20) {
+            0 => s.push_str(&gen::frag(src, &g)),
+            1 => s.push_str(*src.pick(&["\x1b[?1049h", "\x1b[?1049l", "\x1b[H\x1b[2M", "\x1b[5S"])),
+            2 => {
+                for j in 0..src.range(1, 3 * cols) {
+                    s.push((b'a' + ((k + j) % 26) as u8) as char);
+                }
+            }
+            _ => {
+                for j in 0..src.range(1, 10) {
+                    s.push_str(&format!("row {} of chunk {}\r\n", j, k));
+                }
+            }
+        }
+        if s.contains("[3J") {
+            continue;
+        }
+        let mut t2 = tr.clone();
+        t2.feed_str(&s);
+        if t2.saw_ris {
+            continue;
+        }
+        tr = t2;
+        case.calls.push(Call::FeedStr(s));
+    }
+    case.calls.push(Call::FeedStr(CLOSING.to_string()));
+    case
+}
+
 /// enumerated: the scroll-off paths named in the property x every limit x chunk sizes
 fn enum_paths() -> Vec<Case> {
     let mut v = vec![];
@@ -249,6 +288,7 @@ pub fn run(env: &Env) -> PropRun {
     let mut parts = vec![];
     let ep = enum_paths();
     parts.push(run_part(env, "enum-paths", ep.len(), true, "3 sizes x 8 limits x 7 session bodies (LF flood, long wrapped line, DL at the top row, top-anchored partial region, 1049 excursion with garbage, SU incl. 65535, coloured lines) x chunk sizes {1,7,whole}", &|i| ep.get(i).cloned(), &j));
+    parts.push(random_part(env, "long-sessions", env.tier.scale(300, 30), &gen_long_session, &j));
     parts.push(random_part(env, "wrapped-lines", env.tier.scale(60_000, 30), &gen_wrapped, &j));
     parts.push(random_part(env, "random-sessions", env.tier.scale(60_000, 30), &gen_case, &j));
     PropRun {
